@@ -112,6 +112,25 @@ func (s RNS) Events(env world.Env, mm mc.Model) []string {
 			}
 		}
 	}
+	// the same names spelled with capitals (names are case-insensitive)
+	for _, x := range rnsWho {
+		if s.Prop == "C09" {
+			add("Bid:%s:Alpha.jkl:7ujkl", x)
+			add("Bid:%s:EXP.jkl:5uatom", x)
+			add("Cancel:%s:Alpha.jkl", x)
+			for _, y := range others(x) {
+				add("Accept:%s:Exp.jkl:%s", x, y)
+			}
+		} else {
+			add("Register:%s:Alpha.jkl", x)
+			add("List:%s:Exp.jkl:5ujkl", x)
+			add("Buy:%s:EXP.jkl", x)
+			add("Delist:%s:Exp.jkl", x)
+			for _, y := range others(x) {
+				add("Transfer:%s:Exp.jkl:%s", x, y)
+			}
+		}
+	}
 	if m.Blocks < rnsMaxBlocks {
 		add("NextBlock")
 	}
@@ -197,11 +216,15 @@ func (s RNS) Apply(env world.Env, mm mc.Model, ev string) mc.Step {
 		st.Model, st.Outcome = m, "block"
 		return st
 	}
+	rawName := p[2]
+	p[2] = strings.ToLower(p[2]) // names are case-insensitive: the oracle works on the canonical spelling
 	height := env.Ctx().BlockHeight()
 	before := rnsSnapshot(w, env.Ctx())
 	balBefore := w.Balances(env.Ctx())
 	signer := w.A(p[1]).Bech
-	res := env.Deliver(s.msgFor(w, p))
+	mp := append([]string{}, p...)
+	mp[2] = rawName
+	res := env.Deliver(s.msgFor(w, mp))
 	after := rnsSnapshot(w, env.Ctx())
 	balAfter := w.Balances(env.Ctx())
 	d := world.BalDiff(balBefore, balAfter)
@@ -388,11 +411,11 @@ func init() {
 	Props["C08"] = Prop{Level: "model_checking", Run: func(r *mc.Run, tier string) {
 		r.Rules = append(r.Rules, "BFS over 91 events/state: register, list(2 prices), delist, buy, bid(2), accept, cancel, transfer, update, add/del record by A,B,C on 2 names (one fresh, one genesis-seeded expiring at height 5) + NextBlock; state key = rns+bank stores, header, model")
 		r.Assumptions = append(r.Assumptions, "height == Expires treated as unspecified (handlers disagree there)", "3 principals, 2 names, 1-year terms")
-		r.AddExplore(RNS{Prop: "C08"}, opts(tier, 3, 5, 60, 1200, 200, 3000))
+		r.AddExplore(RNS{Prop: "C08"}, opts(tier, 4, 6, 70, 1500, 200, 3000))
 	}}
 	Props["C09"] = Prop{Level: "model_checking", Run: func(r *mc.Run, tier string) {
 		r.Rules = append(r.Rules, "BFS over 67 events/state: bid (5ujkl,7ujkl,5uatom; repeats allowed), cancel, accept, register, list, buy, transfer by A,B,C on 2 names + NextBlock; oracle Δmodule = ΔΣ open bids on every transition")
 		r.Assumptions = append(r.Assumptions, "3 principals, 2 names, 3 bid values in 2 denominations")
-		r.AddExplore(RNS{Prop: "C09"}, opts(tier, 3, 5, 60, 1200, 200, 3000))
+		r.AddExplore(RNS{Prop: "C09"}, opts(tier, 4, 6, 70, 1500, 200, 3000))
 	}}
 }
